@@ -64,7 +64,7 @@ def guard_placement(run, f, lc):
     # the collector it measures into is the envelope's actor's collector
     tr = lc.tr
     a = strip_wrappers(tr.norm(tr.call_args(g)[0]))
-    okc = a[0] == "call" and a[2].endswith("metrics_collector")
+    okc = a[0] == "call" and a[2] in __import__("anchors").metrics_accessors(f)
     run.require(okc, "O20.1", "guard-uses-actor-collector", "the guard records into %s" % show(a), "guard records into the actor's own collector", loc=lc.loc(g))
     # held across the handler await
     b = lc.body
@@ -321,6 +321,7 @@ def survives(run, f):
         t = flds.get("metrics")
         run.require(t is not None and t.is_adt("std::sync::Arc") and t.args and t.args[0].is_adt(MC), "O20.5", "holds-arc:%s" % adt.split("::")[-1], "%s.metrics is %s" % (adt, t), "holds Arc<MetricsCollector> (strong)")
     n = 0
+    fresh = []
     for bd in f.fn_bodies():
         tr = tracer_of(bd)
         for bk in bd.blocks:
@@ -330,6 +331,11 @@ def survives(run, f):
                     i = rv["fields"].index("metrics")
                     t = strip_wrappers(tr.norm(tr.operand(rv["ops"][i])))
                     good = t[0] == "param"
+                    if t[0] == "call" and t[2].startswith("std::sync::Arc") and t[2].endswith("::new") and rv["adt"] == "actor_ref::ActorRef":
+                        # the spawn function's fresh handle: Arc::new(MetricsCollector::new()) (one such site: one-collector-per-actor)
+                        inner = strip_wrappers(tr.norm(tr.call_args(t[1])[0]))
+                        good = inner[0] == "call" and inner[2] == MC + "::new"
+                        fresh.append(bd.name)
                     if t[0] == "call" and t[2].endswith("Clone::clone"):
                         src = strip_refs(tr.norm(tr.call_args(t[1])[0]))
                         good = src[0] == "field" and strip_refs(src[2])[0] == "param"
@@ -337,4 +343,5 @@ def survives(run, f):
                     run.require(good, "O20.5", "metrics-copied:%s:%s" % (rv["adt"].split("::")[-1], (bd.root or bd.defn).split("::")[-1]), "handle built with metrics = %s" % show(t), "metrics Arc copied from the source handle")
     run.require(n >= 5, "O20.5", "construction-floor", "only %d handle constructions" % n, "%d constructions" % n)
     news = [(b.name, loc_of(b, k)) for b, k in all_calls(f) if callee(k.term) == MC + "::new" and "metrics::collector" not in b.name]
-    run.require(len(news) == 1 and news[0][0] == "spawn_with_mailbox_capacity", "O20.5", "one-collector-per-actor", "MetricsCollector::new called at %s" % news, "one collector per spawn")
+    run.require(len(news) == 1 and fresh == [news[0][0]], "O20.5", "one-collector-per-actor", "MetricsCollector::new called at %s, fresh handles built in %s" % (news, fresh),
+                "one collector per spawn: the only MetricsCollector::new feeds the one ActorRef built from scratch")
